@@ -10,7 +10,8 @@ var round10Registrations = map[string][]string{
 	"R-FMT-4":   {"C10"}, // … and come from the file's own FileInfo (C10-20)
 	"R-SCP-2":   {"C14"}, // a scope is released once: a node scope pooled twice is handed to two nested queries, whose aliases and inline tables then change under evaluation (C14-20)
 	"R-ISO-5":   {"C20"}, // a failed multi-table DELETE / UPDATE leaves no half-published table in the cache: later reads of the transaction see only its own successful changes (C20-19)
-	"R-SRT-12":  {"C12"}, // a per-row cache handed whole to the sub-view of a worker makes the result depend on how the rows were split (C12-19)
+	"R-SRT-12":  {"C12"},
+	"R-SCP-1":   {"C16"}, // what OPEN materialises depends on the innermost-first lookup: a scope chain re-sliced so that inner blocks are hidden binds the outer variable (C16-19) // a per-row cache handed whole to the sub-view of a worker makes the result depend on how the rows were split (C12-19)
 }
 
 func init() {
